@@ -72,6 +72,15 @@ def definition(ref, x, atol, rtol):
     return per, feas, en
 
 
+COMBOS = [(False, False), (True, False), (False, True), (True, True)]     # (skip_satisfied, clip)
+
+
+def report(per, labels, skip, clip):
+    """the documented report of `violations` for one option combination, from the definition's violations `per[l][2]`:
+    skip_satisfied drops every constraint whose violation is not strictly positive; clip replaces a negative violation by 0"""
+    return {l: (max(per[l][2], F(0)) if clip else per[l][2]) for l in labels if not skip or per[l][2] > 0}
+
+
 def gen_cqm(ctx, r):
     """a CQM built through public calls; returns (cqm, ref, protocol lines, python source)"""
     cqm = CQM(); ref = c05.Ref(); lines = ['new']; src = []
@@ -318,6 +327,32 @@ def evaluate(ctx, r, out, cqm, ref, st):
             tolkw, tol = ', rtol=3e-07, atol=1e-09', dict(rtol=3e-7, atol=1e-9)
         fa, fr_ = float(atol), float(rtol)
         ctx.tick('non-dyadic tolerances' + (' (defaults)' if not tol else ''))
+    elif ref.cons and r.random() < .3:
+        # the tolerance boundary: atol chosen so that a violated constraint of row 0 sits EXACTLY at atol + rtol*|rhs| (satisfied,
+        # the test is <=) or 2^-10 above it (not satisfied); all quantities dyadic with few bits, so float arithmetic is exact
+        per0, _, _ = definition(ref, {v: F(a) for v, a in zip(labs, rows[0])}, F(0), F(0))
+        cand = [l for l in ref.cons if 0 < per0[l][2] < 2 ** 30]
+        if cand:
+            l = r.choice(cand)
+            rt = F(r.choice([0, 0, F(1, 8), F(1, 2), 1]))
+            below = r.random() < .5
+            a = per0[l][2] - rt * abs(ref.cons[l].rhs) - (F(1, 1024) if below else 0)
+            if a >= 0:
+                atol, rtol = a, rt
+                fa, fr_ = float(atol), float(rtol)
+                assert F(fa) == atol and F(fr_) == rtol
+                tolkw = f', rtol={fr_!r}, atol={fa!r}'
+                tol = dict(rtol=fr_, atol=fa)
+                ctx.tick('tolerance boundary: ' + ('violation 2^-10 above the tolerance' if below else 'violation exactly at the tolerance'))
+    elif r.random() < .15:
+        # one tolerance given, the other left to its documented default (exact rational value of that float; every violation is
+        # a multiple of 2^-14 at least 1e-9 away from any such sum, so float rounding of the sum cannot change a comparison)
+        if r.random() < .5:
+            atol, tolkw, tol = F(1e-8), f', rtol={fr_!r}', dict(rtol=fr_)
+        else:
+            rtol, tolkw, tol = F(1e-6), f', atol={fa!r}', dict(atol=fa)
+        fa, fr_ = float(atol), float(rtol)
+        ctx.tick('one tolerance given, the other defaulted')
     clabels = list(ref.cons)
     pre = c05.PRELUDE + 'from dimod import SampleSet, ExactCQMSolver\n' + '\n'.join(src) + '\n'
     key = (tuple(lines), tuple(map(tuple, rows)), atol, rtol)
@@ -360,16 +395,23 @@ def evaluate(ctx, r, out, cqm, ref, st):
         per, feas, en = definition(ref, x, atol, rtol)
         try:
             data = list(cqm.iter_constraint_data(sample))
-            v0 = list(cqm.iter_violations(sample)); v1 = list(cqm.iter_violations(sample, skip_satisfied=True))
-            v2 = list(cqm.iter_violations(sample, clip=True))
-            d0 = cqm.violations(sample); d1 = cqm.violations(sample, skip_satisfied=True); d2 = cqm.violations(sample, clip=True)
+            # every option combination, the options given explicitly or left to their defaults
+            expl = r.random() < .5
+            okw = lambda sk, cl: ({'skip_satisfied': sk, 'clip': cl} if expl else {k: True for k, b in (('skip_satisfied', sk), ('clip', cl)) if b})   # noqa: E731
+            vs_ = {sc: list(cqm.iter_violations(sample, **okw(*sc))) for sc in COMBOS}
+            ds_ = {sc: cqm.violations(sample, **okw(*sc)) for sc in COMBOS}
+            v0, v1, v2, v3 = (vs_[sc] for sc in COMBOS)
             cf = cqm.check_feasible(sample, **tol)
+            if len(tol) == 2 and bool(cqm.check_feasible(sample, tol['rtol'], tol['atol'])) != bool(cf):
+                fail('CQM.check_feasible', 'positional tolerances', f'check_feasible({sample!r}, rtol, atol) given positionally differs from the keyword form',
+                     f'assert cqm.check_feasible({sample!r}, {tol["rtol"]!r}, {tol["atol"]!r}) == cqm.check_feasible({sample!r}{tolkw})\n')
+                return False
         except Exception as e:  # noqa
             fail('CQM.iter_constraint_data', 'raises', f'{type(e).__name__}: {e}', f'list(cqm.iter_constraint_data({sample!r}))\n')
             return False
         vl = lambda l: ','.join(f'{lab(a)}={rat(b)}' for a, b in l)   # noqa: E731
         per_row.append(','.join(f'{rat(d.lhs_energy)}:{rat(d.rhs_energy)}:{d.sense.value}:{rat(d.activity)}:{rat(d.violation)}' for d in data)
-                       + f'|{vl(v0)}|{vl(v1)}|{vl(v2)}|{int(bool(cf))}')
+                       + f'|{vl(v0)}|{vl(v1)}|{vl(v2)}|{vl(v3)}|' + '/'.join(vl(list(ds_[sc].items())) for sc in COMBOS) + f'|{int(bool(cf))}')
         # predicate: against the definition
         if [d.label for d in data] != clabels:
             fail('CQM.iter_constraint_data', 'labels', 'labels out of order', f'assert [d.label for d in cqm.iter_constraint_data({sample!r})] == {clabels!r}\n'); return False
@@ -385,16 +427,27 @@ def evaluate(ctx, r, out, cqm, ref, st):
                 break
         if not ok:
             break
-        want0 = {l: per[l][2] for l in clabels}
-        want1 = {l: per[l][2] for l in clabels if per[l][2] > 0}
-        want2 = {l: max(per[l][2], F(0)) for l in clabels}
-        for name, gd, gl, wd in (('plain', d0, v0, want0), ('skip_satisfied', d1, v1, want1), ('clip', d2, v2, want2)):
+        want0 = report(per, clabels, False, False)
+        for l in clabels:
+            c_ = ref.cons[l]
+            ctx.tick(f'constraint at row: {c_.sense} {"violated" if per[l][2] > 0 else "met exactly" if per[l][2] == 0 else "strictly slack"} '
+                     f'{"soft" if c_.weight is not None else "hard"}{"" if c_.p.order else " constant-only"}')
+        for sc in COMBOS:
+            wd = report(per, clabels, *sc)
+            gd, gl = ds_[sc], vs_[sc]
             g = {a: F(float(b)) for a, b in gd.items()}
-            if g != wd or [a for a, _ in gl] != list(wd) or {a: F(float(b)) for a, b in gl} != wd:
+            if g != wd or list(gd) != list(wd) or [(a, F(float(b))) for a, b in gl] != list(wd.items()):
                 bad = next((l for l in clabels if g.get(l) != wd.get(l)), None)
-                kw = {'plain': '', 'skip_satisfied': ', skip_satisfied=True', 'clip': ', clip=True'}[name]
-                fail('CQM.violations', cls_of(ref, bad) if bad is not None else 'general', f'violations({name}) at {sample!r} = {gd!r}, definition { {a: float(b) for a, b in wd.items()} !r}',
-                     f'assert cqm.violations({sample!r}{kw}) == { {a: float(b) for a, b in wd.items()} !r}\n')
+                if bad is None:
+                    bad = next((l for l in clabels if dict((a, F(float(b))) for a, b in gl).get(l) != wd.get(l)), None)
+                kw = ''.join(f', {k}={v}' for k, v in okw(*sc).items())
+                icls = cls_of(ref, bad) if bad is not None else 'general'
+                if bad is not None and sc == (True, True) and report(per, clabels, True, False) == {a: F(float(b)) for a, b in ds_[(True, False)].items()}:
+                    icls = 'skip_satisfied and clip together'
+                wsrc = {a: float(b) for a, b in wd.items()}
+                fail('CQM.violations', icls, f'violations / iter_violations({kw[2:] or "no options"}) at {sample!r} = {gd!r} / {gl!r}, definition {wsrc!r}',
+                     f'got = cqm.violations({sample!r}{kw}); it = list(cqm.iter_violations({sample!r}{kw}))\nprint(got, it)\n'
+                     f'assert got == {wsrc!r} and list(got) == {list(wd)!r}, got\nassert it == {[(a, float(b)) for a, b in wd.items()]!r}, it\n')
                 ok = False
                 break
         if not ok:
@@ -430,18 +483,21 @@ def evaluate(ctx, r, out, cqm, ref, st):
                 g0 = lcall(lambda: cqm.iter_violations(sample, labels=arg))
                 g1 = lcall(lambda: cqm.iter_violations(sample, skip_satisfied=True, labels=arg))
                 g2 = lcall(lambda: cqm.iter_violations(sample, clip=True, labels=arg))
+                g3 = lcall(lambda: cqm.iter_violations(sample, clip=True, skip_satisfied=True, labels=arg))
                 shd = gd if isinstance(gd, str) else ','.join(
                     f'{lab(d.label)}:{rat(d.lhs_energy)}:{rat(d.rhs_energy)}:{d.sense.value}:{rat(d.activity)}:{rat(d.violation)}' for d in gd)
                 shv = lambda g: g if isinstance(g, str) else ','.join(f'{lab(a)}={rat(b)}' for a, b in g)   # noqa: E731
                 larg = 'none' if ls is None else (','.join(lab(l) for l in ls) or '-')
                 extra_out.append(dict(lines=[f'feasl {larg} ' + (','.join(rat(a) for a in row) or '-')],
-                                      expect=f'L {shd}|{shv(g0)}|{shv(g1)}|{shv(g2)}', src=list(src), rows=[row]))
+                                      expect=f'L {shd}|{shv(g0)}|{shv(g1)}|{shv(g2)}|{shv(g3)}', src=list(src), rows=[row]))
                 if want_raise:
-                    okl = gd == g0 == g1 == g2 == 'raise:value'
+                    # a generator: what is yielded before the unknown label is reached is not part of `list(...)`
+                    okl = gd == g0 == g1 == g2 == g3 == 'raise:value'
                     wantd = 'ValueError (unknown constraint label)'
                 else:
                     wd = [(l, per[l][0], ref.cons[l].rhs, ref.cons[l].sense, per[l][1], per[l][2]) for l in sel]
-                    okl = (not isinstance(gd, str) and not isinstance(g0, str) and not isinstance(g1, str) and not isinstance(g2, str)
+                    okl = (not isinstance(gd, str) and not isinstance(g0, str) and not isinstance(g1, str) and not isinstance(g2, str) and not isinstance(g3, str)
+                           and [(a, F(float(b))) for a, b in g3] == [(l, per[l][2]) for l in sel if per[l][2] > 0]
                            and [(d.label, F(float(d.lhs_energy)), F(float(d.rhs_energy)), d.sense.value, F(float(d.activity)), F(float(d.violation))) for d in gd] == wd
                            and [(a, F(float(b))) for a, b in g0] == [(l, per[l][2]) for l in sel]
                            and [(a, F(float(b))) for a, b in g1] == [(l, per[l][2]) for l in sel if per[l][2] > 0]
@@ -472,6 +528,15 @@ def evaluate(ctx, r, out, cqm, ref, st):
                 try:
                     gd = {a: F(float(b)) for a, b in cqm.violations((arr1, sorder)).items()}
                     cfd = bool(cqm.check_feasible((arr1, sorder), **tol))
+                    sc = r.choice(COMBOS[1:])
+                    gsc = {a: F(float(b)) for a, b in cqm.violations((arr1, sorder), skip_satisfied=sc[0], clip=sc[1]).items()}
+                    if gsc != report(per, clabels, *sc):
+                        fail('CQM.violations', f'{np.dtype(dt).name} sample', f'violations(skip_satisfied={sc[0]}, clip={sc[1]}) of the {np.dtype(dt).name} row {srow!r} (columns {sorder!r}) = '
+                             f'{ {a: float(b) for a, b in gsc.items()} !r}, definition { {a: float(b) for a, b in report(per, clabels, *sc).items()} !r}',
+                             f'assert cqm.violations((np.array([{srow!r}], dtype=np.{np.dtype(dt).name}), {sorder!r}), skip_satisfied={sc[0]}, clip={sc[1]}) == '
+                             f'{ {a: float(b) for a, b in report(per, clabels, *sc).items()} !r}\n')
+                        ok = False
+                        break
                 except Exception as e:  # noqa
                     fail('CQM.violations', 'raises', f'{type(e).__name__}: {e} for a {np.dtype(dt).name} row', f'cqm.violations((np.array([{srow!r}], dtype=np.{np.dtype(dt).name}), {sorder!r}))\n')
                     ok = False
